@@ -554,6 +554,26 @@ def r7(ctx):
         if got != want:
             part = ["host", "port", "resource", "tls"][next(i for i in range(4) if got[i] != want[i])]
             fails.setdefault(part, (url, got, want))
+    # scheme spellings: a scheme that differs from ws / wss only in letter case is either refused (ValueError, as a foreign scheme) or
+    # means what its lower-case form means -- 'WSS://h' accepted as a *plain* connection to port 443 would send the handshake in clear text
+    bad_case = None
+    ncase = 0
+    for sch in ("WSS", "Wss", "wsS", "WS", "Ws"):
+        for rest in ("://h.example/chat", "://h.example:8443/x?q=1"):
+            url = sch + rest
+            outs = I.explore(lambda run, url=url: I.call(run, I.make_fn(run, PU), [C(url)], {}, None))
+            ctx.paths += len(outs)
+            ncase += 1
+            for o in outs:
+                if o.kind == "raise" and o.exc_class == "builtins.ValueError":
+                    continue
+                want = _ref_split(sch.lower() + rest)
+                got = tuple(x.v for x in o.value.items) if o.kind == "return" and isinstance(o.value, Tup) and all(isinstance(x, C) for x in o.value.items) else None
+                if got != want:
+                    bad_case = bad_case or (url, got if got is not None else f"{o.kind} {o.exc_class or o.value!r}", want)
+    ctx.ob(f"{PU}:grid:scheme-letter-case", bad_case is None, f"{ncase} URLs with an upper/mixed-case scheme: refused, or read as the lower-case scheme" if bad_case is None else
+           f"parse_url({bad_case[0]!r}) = {bad_case[1]!r}: neither refused nor what the lower-case scheme means {bad_case[2]!r} -- a secure URL spelt with capitals is connected without TLS",
+           loc, {"url": bad_case[0]} if bad_case else None)
     for part in ("host", "port", "resource", "tls"):
         f = fails.get(part)
         ctx.ob(f"{PU}:grid:{part}", f is None, f"{n} URLs agree with the reference" if f is None else
